@@ -459,6 +459,53 @@ Definition eq_case (straight : Z) (u0 : @opts Z) (h : list (@qop Z unit unit))
   | _ => false
   end.
 
+(** ** The covering cache as two parallel slices: for every history of optimized queries, Resets
+    and index changes followed by Reset, every query starts from exactly the top-level cells of
+    the CURRENT index, each paired with its own cell pointer. *)
+Section CoveringProofs.
+  Context {Ix Cid Cptr : Type}.
+  Variable ranges : Ix -> list (Cid * Cptr).
+
+  Definition cc_ok (ix : Ix) (c : @ccache Cid Cptr) : Prop :=
+    (ccov c = [] /\ cptrs c = []) \/ (ccov c = map fst (ranges ix) /\ cptrs c = map snd (ranges ix)).
+
+  Lemma combine_fst_snd {A B} (l : list (A * B)) : combine (map fst l) (map snd l) = l.
+  Proof. induction l as [|[a b] l IH]; cbn; [reflexivity|]. rewrite IH. reflexivity. Qed.
+
+  Lemma cc_init_ok ix c : cc_ok ix c -> cc_ok ix (cc_init ranges ix c) /\ cc_paired (cc_init ranges ix c) = ranges ix.
+  Proof.
+    intros [[H1 H2]|[H1 H2]]; unfold cc_init.
+    - rewrite H1, H2. cbn [app]. split; [right; split; reflexivity|]. unfold cc_paired. cbn [ccov cptrs]. apply combine_fst_snd.
+    - destruct (ccov c) eqn:E.
+      + (* empty index: nothing to cover *)
+        rewrite H2. destruct (ranges ix) as [|x r]; [|discriminate]. cbn. split; [left; split; reflexivity|reflexivity].
+      + split; [right; split; congruence|]. unfold cc_paired. rewrite E, H1, H2. apply combine_fst_snd.
+  Qed.
+
+  Theorem covering_cache_history (h : list (@cop Ix)) : forall ix c, cc_ok ix c ->
+    exists s', run (cstep ranges cc_reset) (ix, c) h = Ok (s', cspec ranges ix h).
+  Proof.
+    induction h as [|o h IH]; intros ix c Hok; cbn [run cspec].
+    - eexists. reflexivity.
+    - destruct o as [| |ix']; cbn [cstep obind].
+      + destruct (cc_init_ok ix c Hok) as (Hok' & Hp). destruct (IH ix _ Hok') as (s' & Hr). rewrite Hr. cbn [obind app].
+        rewrite Hp. eexists. reflexivity.
+      + destruct (IH ix (cc_reset c)) as (s' & Hr); [left; split; reflexivity|]. rewrite Hr. cbn. eexists. reflexivity.
+      + destruct (IH ix' (cc_reset c)) as (s' & Hr); [left; split; reflexivity|]. rewrite Hr. cbn. eexists. reflexivity.
+  Qed.
+End CoveringProofs.
+
+(** C13-mut5 (seeded): Reset without [e.indexCells = nil]. Index 1 has top-level cells 10,20 with
+    cell pointers 100,200; the index then grows to cells 5,10,20 (pointers 50,100,200); after
+    Reset the new covering is paired with the OLD pointers: cell 5 with pointer 100, ... *)
+Definition toy_ranges (ix : nat) : list (nat * nat) :=
+  match ix with 1 => [(10, 100); (20, 200)] | _ => [(5, 50); (10, 100); (20, 200)] end.
+Theorem reset_keeps_index_cells_refuted :
+  exists h s, run (cstep toy_ranges cc_reset_keeps_cells) (1, cc_new) h
+              = Ok (s, [[(10, 100); (20, 200)]; [(5, 100); (10, 200); (20, 50)]]) /\
+              cspec toy_ranges 1 h = [[(10, 100); (20, 200)]; [(5, 50); (10, 100); (20, 200)]].
+Proof. exists [CQuery; CReinit 2; CQuery]. eexists. vm_compute. split; reflexivity. Qed.
+
 (** ** C14-mut4 (seeded): IsDistanceLess overriding the shared options IN PLACE and restoring them
     afterwards is invisible serially, but a FindEdges on ANOTHER query object built from the same
     options value, running while the first is inside IsDistanceLess, sees the override. *)
